@@ -138,11 +138,95 @@ def make_case(rng):
     return prog, src, spans, target, info
 
 
+def handler_history(rng):
+    """A history of trapped errors (RESUME NEXT / RESUME label out of nested calls, STATIC and ordinary SUBs) followed by one
+    untrapped error; the expected position list follows from the construction."""
+    def div(var):
+        return {"k": "assign", "lhs": ("var", "ZZ!"), "rhs": ("bin", "/", ("lit", "%", 1), ("var", var))}
+
+    def pr(text):
+        return {"k": "print", "items": [("e", ("lit", "$", text))]}
+
+    depth = rng.choice([1, 2, 3])
+    procs = []
+    fault = div("K%")
+    body = [pr("in P%d" % depth)] + ([pr("x")] if rng.random() < 0.5 else []) + [fault, pr("after fault")]
+    calls = []
+    for d in range(depth, 0, -1):
+        procs.insert(0, {"k": "sub", "name": "P%d" % d, "params": [("K%", "%")], "static": rng.random() < 0.4, "rtype": None, "body": body})
+        call = {"k": "callsub", "name": "P%d" % d, "args": [("var", "K%")]}
+        calls.insert(0, call)
+        body = [pr("in P%d" % (d - 1))] + ([pr("y")] if rng.random() < 0.5 else []) + [call, pr("back in P%d" % (d - 1))]
+    # calls[0] is the call of P1 that will be placed in the main module, calls[i] sits in the body of P(i)
+    main = []
+    rounds = rng.choice([0, 1, 2, 3])
+    handlers = []
+    for i in range(rounds):
+        main.append({"k": "onerror", "mode": "goto", "label": "H%d" % i})
+        main.append(pr("round %d" % i))
+        how = rng.choice(["next", "label", "label"])
+        y = rng.random()
+        if y < 0.7:
+            main.append({"k": "callsub", "name": "P1", "args": [("lit", "%", 0)]})
+        else:
+            main.append(div("ZQ%"))
+        if how == "label":
+            main.append({"k": "label", "name": "R%d" % i})
+            handlers += [{"k": "label", "name": "H%d" % i}, pr("handler %d" % i), {"k": "resume", "mode": "label", "label": "R%d" % i}]
+        else:
+            handlers += [{"k": "label", "name": "H%d" % i}, pr("handler %d" % i), {"k": "resume", "mode": "next"}]
+        main.append(pr("after round %d" % i))
+    main.append({"k": "onerror", "mode": "zero"})
+    final = rng.choice(["main", "call", "call"])
+    if final == "main":
+        f = div("ZQ%")
+        main.append(f)
+        expected = [f]
+    else:
+        c0 = {"k": "callsub", "name": "P1", "args": [("lit", "%", 0)]}
+        main.append(c0)
+        expected = [fault] + list(reversed(calls[1:])) + [c0]
+    main.append({"k": "end"})
+    main += handlers
+    prog = {"main": main, "procs": procs, "shared": set()}
+    return prog, expected, {"rounds": rounds, "depth": depth, "final": final, "static": sum(1 for q in procs if q["static"])}
+
+
 def in_span(pos, span, slack_hi=0):
     return pos[0] == span[0] and span[1] <= pos[1] < span[2] + slack_hi
 
 
+def run_history(w, rng, r):
+    prog, expected, info = handler_history(rng)
+    renumber(prog)
+    eol = rng.choice(["\n", "\r\n", "\r", ["\n", "\r\n", "\r"]])
+    src, spans = emit_with_procs(prog, rng=rng, noise=rng.choice([0.0, 0.3, 0.6]), eol=eol)
+    rep = w.run(src, budget=200000)
+    oc = outcome(rep)
+    if oc[0] in ("watchdog", "harness_error", "died", "budget"):
+        r.inconc(oc[0])
+        return
+    r.evaluations += 1
+    r.count("runtime_after_handler_history", group="fault_kinds")
+    r.count("handled_rounds_%d" % info["rounds"], group="handler_history")
+    r.count("call_depth_%d" % (len(expected) - 1), group="call_depth_at_fault")
+    if info["rounds"] >= 1:
+        r.nontrivial.add(h64(src))
+    case = {"src": src, "info": info}
+    if oc[0] != "error" or oc[1] != 11:
+        r.fail("C11:history:outcome", "expected an untrapped division by zero, got %s | program:\n%s" % (oc, src[:1500]), case)
+        return
+    pos = rep["run"]["result"].get("pos") or []
+    exp_spans = [spans.get(st["id"]) for st in expected]
+    ok = len(pos) == len(exp_spans) and all(sp is not None and in_span(p, sp) for p, sp in zip(pos, exp_spans))
+    if not ok:
+        r.fail("C11:history:%s" % ("stack_length" if len(pos) != len(exp_spans) else "position"),
+               "after %d trapped errors the untrapped one reports %s, expected spans %s (%s) | program:\n%s" % (info["rounds"], pos, exp_spans, info, src[:1500]), case)
+
+
 def run_case(w, rng, r):
+    if rng.random() < 0.15:
+        return run_history(w, rng, r)
     prog, src, spans, target, info = make_case(rng)
     fam = info["family"]
     tspan = spans.get(target["id"])
